@@ -167,7 +167,12 @@ class RepeatedTimer:
     def _run(self):
         self.is_running = False
         self.start()
-        self.dump_func(self.outfile)
+        # A dump still being written when `stop()` returns would overwrite
+        # the final statistics with older ones: `stop()` waits for it, and
+        # no dump starts afterwards
+        with self._lock:
+            if not self._stopped:
+                self.dump_func(self.outfile)
 
     def start(self):
         # `stop()` may arrive while `_run()` is between the timer firing and
